@@ -15,8 +15,9 @@ from .. import common, refcodec as R
 
 REPS = ["uint8_t", "int64_t", "bool", "float", "double", "string", "UUID",
         "Offset", "Addr"]
-ATTACHED = [uuid.UUID(int=0x2000 + i) for i in range(3)]
-UNATTACHED = [uuid.UUID(int=0x2F00), uuid.UUID(int=0),
+_HI = 0x0123456789ABCDEF << 64  # not a byte-palindrome (bytes vs bytes_le)
+ATTACHED = [uuid.UUID(int=_HI + 0x2000 + i) for i in range(3)]
+UNATTACHED = [uuid.UUID(int=_HI + 0x2F00), uuid.UUID(int=0),
               uuid.UUID(int=(1 << 128) - 1)]
 
 NAN1 = struct.unpack("<d", struct.pack("<Q", 0x7FF8000000000001))[0]
@@ -245,7 +246,7 @@ class Bridge:
         0x30000 + i"""
         have = len(self.nodes) - 3
         for i in range(have, n):
-            u = uuid.UUID(int=0x30000 + i)
+            u = uuid.UUID(int=_HI + 0x30000 + i)
             self.nodes[u] = self.g.ProxyBlock(uuid=u, module=self.module)
 
     def to_impl(self, v, t, as_node):
@@ -842,13 +843,13 @@ def long_elements(name, n, distinct):
     if name == "UUID":
         br = bridge()
         br.ensure_nodes(n)
-        return [uuid.UUID(int=0x30000 + i) if i % 3 else
-                uuid.UUID(int=0x50000 + i) for i in range(n)]
+        return [uuid.UUID(int=_HI + 0x30000 + i) if i % 3 else
+                uuid.UUID(int=_HI + 0x50000 + i) for i in range(n)]
     if name == "Offset":
         br = bridge()
         br.ensure_nodes(n)
-        return [("Offset", uuid.UUID(int=0x30000 + i) if i % 2 else
-                 uuid.UUID(int=0x50000 + i), i * 4096) for i in range(n)]
+        return [("Offset", uuid.UUID(int=_HI + 0x30000 + i) if i % 2 else
+                 uuid.UUID(int=_HI + 0x50000 + i), i * 4096) for i in range(n)]
     return None
 
 
